@@ -83,7 +83,7 @@ pub const BATCH: u64 = 96;
 pub const MAX_OPS: usize = 64;
 
 /// Key texts for `mapq`.
-pub const KEY_TEXTS: [&str; 14] = ["1", " 1", "1 ", "2", "@a", "@a{}", "@a {}", "a", "\"a\"", "1.0", "@a{1}", "@b", "\"1\"", "{1}"];
+pub const KEY_TEXTS: [&str; 16] = ["1", " 1", "1 ", "2", "@a", "@a{}", "@a {}", "a", "\"a\"", "1.0", "@a{1}", "@b", "\"1\"", "{1}", "{{1,2},3}", "{1,{2},3}"];
 
 /// Class (index of the first text with the same Recon value) of every key text.
 pub fn key_classes() -> Vec<usize> {
@@ -314,7 +314,24 @@ impl Carried for EventQueue<u8, u32> {
     }
 }
 
+/// The sequence uses both of the key texts `{{1,2},3}` and `{1,{2},3}` (different Recon values that the product's key
+/// comparison takes for the same key: a recorded finding; violations of such sequences carry a tag).
+fn uses_nested_record_keys(seq: &Seq) -> bool {
+    let key_of = |o: &String| -> Option<usize> {
+        let r = o.strip_prefix('u').or_else(|| o.strip_prefix('d'))?;
+        r.split('=').next()?.parse::<usize>().ok()
+    };
+    seq.kind == "mapq" && seq.ops.iter().any(|o| key_of(o) == Some(14)) && seq.ops.iter().any(|o| key_of(o) == Some(15))
+}
+
 fn viol(ctx: &mut SeqCtx<'_>, seq: &Seq, oi: usize, prop: &str, rule: &str, sig: &str, detail: String) {
+    let tagged;
+    let sig = if uses_nested_record_keys(seq) {
+        tagged = format!("nested_record_keys:{sig}");
+        tagged.as_str()
+    } else {
+        sig
+    };
     let v = Violation::new(prop, rule, sig, format!("{detail}; kind={} keys={} ordered={} ops={}", seq.kind, seq.keys, seq.ordered, seq.ops.join(" ")));
     ctx.violate(oi, v);
 }
